@@ -342,6 +342,7 @@ pub fn run(ctx: &Ctx) -> ! {
             "established_exchanges",
             "exhaustion_runs",
             "exhaustion_free_one_checks",
+            "exhaustion_connect_checks",
             "wraparound_allocations",
             "table_count_checks",
         ],
